@@ -72,8 +72,12 @@ def solve_and_judge(case, which, in_situ=True):
             worst = max(worst, d)
     rec.count('models.judged')
     for opt, on in case.get('build_opts', {}).items():
-        if on:
+        if on and opt not in ('codes', 'order_seed'):
             rec.count('models.judged.with_' + opt)
+    if sum(1 for z in spec['zones'] if z['kind'] == 'federation' and sum(1 for c in z['countries'] if c.get('cap')) >= 2):
+        rec.count('models.judged.with_capitalists_in_several_regions_of_a_zone')
+    if case.get('build_opts', {}).get('codes'):
+        rec.count('models.judged.with_prefix_related_market_codes_and_household_in_both')
     if getattr(b, 'weightings_reused', 0):
         rec.count('models.judged.with_portfolio_rule_object_shared_by_households')
     if any(z['gov'].get('asset_markets_in') and z['gov'].get('deposits') for z in spec['zones']):
@@ -92,6 +96,7 @@ def solve_and_judge(case, which, in_situ=True):
 
 def gen_case(rng, idx, tier, emphasis=None):
     r = idx % 8
+    forced_codes = None
     if emphasis == 'fx':
         nz = rng.choice([2, 2, 3])
         spec = M.gen_spec(rng, n_zones=nz, ext=True)
@@ -102,20 +107,25 @@ def gen_case(rng, idx, tier, emphasis=None):
     elif r == 2:
         # two zones trading with each other, built while unrelated Model() objects come and go
         spec = M.ensure_cross_import(rng, M.gen_spec(rng, n_zones=2, ext=True))
-    elif r in (3, 4):
+    elif r == 4:
+        # two markets with prefix-related codes, the household buying in both; random declaration order
+        spec = M.gen_spec(rng, n_zones=rng.choice([1, 2]))
+        forced_codes = M.force_two_markets_with_household_buyer(rng, spec)
+    elif r == 3:
         spec = M.gen_spec(rng, n_zones=2)
     elif r == 5:
         spec = M.gen_spec(rng, n_zones=3, maxtime=4)
     elif r == 6:
         # a federation whose asset markets are declared in a region, the issuer in the central country
-        spec = M.gen_federation_with_region_asset_markets(rng, all_tobin=(idx % 16 == 6))
+        spec = M.gen_federation_with_region_asset_markets(rng, all_tobin=(idx % 16 == 6), caps=(idx % 16 == 14))
     else:
         spec = M.gen_spec(rng)
     return {'kind': 'model', 'spec': spec, 'ext_first': rng.random() < 0.7,
             'build_opts': {'query_zone': rng.random() < 0.3, 'interleave_model': idx % 2 == 0 or rng.random() < 0.2,   # r == 2 is even
                            'region_default_currency': rng.random() < 0.4,
                            # the model is run through the GUI's step list instead of main()
-                           'run_via_steps': idx % 4 == 3}}
+                           'run_via_steps': idx % 4 == 3,
+                           'codes': forced_codes, 'order_seed': (rng.getrandbits(20) if (forced_codes and idx % 16 == 12) else None)}}
 
 
 class C01(object):
@@ -138,7 +148,9 @@ class C01(object):
     required_counters = ('models.judged', 'money_created_or_destroyed_in_zone.judged',
                          'sector_ledger_not_sum_of_declared_flows.judged', 'insitu.addcashflow.post_evaluated',
                          'models.judged.with_interleave_model', 'models.judged.with_deposit_market_away_from_its_issuer',
-                         'models.judged.with_cross_zone_supplier_and_interleaved_models', 'models.judged.with_run_via_steps')
+                         'models.judged.with_cross_zone_supplier_and_interleaved_models', 'models.judged.with_run_via_steps',
+                         'models.judged.with_prefix_related_market_codes_and_household_in_both',
+                         'models.judged.with_capitalists_in_several_regions_of_a_zone')
     which = ('zone', 'ledger')
 
     def n_cases(self, tier):
